@@ -449,7 +449,9 @@ class ExcelCompiler:
 
         cell_or_range = self.cell_map[address]
 
-        if cell_or_range.value != value:  # pragma: no branch
+        if cell_or_range.value != value or (  # pragma: no branch
+                # a logical is not the number it compares equal to (0 vs FALSE)
+                isinstance(cell_or_range.value, bool) != isinstance(value, bool)):
             # need to be able to 'set' an empty cell, set to not None
             cell_or_range.value = value
 
